@@ -204,8 +204,11 @@ fn walking_bits(ctx: &Ctx, rep: &mut Report, e: &Entry, id: &str) {
     }
     // one key length per shard round-robin keeps this cheap for many-length types
     let lens: Vec<usize> = e.key_lens.iter().cloned().filter(|l| (*l as u64 + ctx.shard) % ctx.nshards.min(e.key_lens.len() as u64).max(1) == 0 || e.key_lens.len() <= 3).collect();
-    let stride = if cfg!(miri) || ctx.scale < 0.05 { 13 } else { 1 };
+    let light = cfg!(miri) || ctx.light();
+    let stride = if light { 61 } else { 1 };
     let slow = e.family == "kuznyechik";
+    // interpreter slices: one key length (moving with the seed), sparse bit positions
+    let lens: Vec<usize> = if light { vec![e.key_lens[(ctx.seed as usize + ctx.shard as usize) % e.key_lens.len()]] } else { lens };
     for kl in lens {
         if kl == 0 {
             continue;
@@ -236,7 +239,7 @@ fn walking_bits(ctx: &Ctx, rep: &mut Report, e: &Entry, id: &str) {
                     x[bit / 8] ^= 0x80 >> (bit % 8);
                     cmp_case(rep, e, id, &inst, r.as_ref(), &key, &x, false, 32);
                 }
-                bit += stride;
+                bit += if light { 17 } else { 1 };
             }
         }
         rep.bump(id, "walking_bit_sweeps", 1);
@@ -418,6 +421,27 @@ fn relations(ctx: &Ctx, rep: &mut Report) {
             }
         }
         rep.set("des::relations", "cases", n as i64);
+    }
+    if want("C07", "magma::bundled-tables") {
+        // the bundled S-box sets must be the published ones (frozen copies; TC26 also vs the model's
+        // transcription from GOST R 34.12-2015)
+        if crate::bundled_sboxes::TC26 != refmodels::gost89::TC26 {
+            rep.inconclusive.push("frozen Tc26 table disagrees with the reference model's transcription".into());
+        }
+        for (alias, sname, table) in crate::registry::bundled_tables() {
+            rep.case(case_hash(alias, sname.as_bytes(), &[], 70), false);
+            match crate::bundled_sboxes::frozen(sname) {
+                Some(f) if *f == table => {}
+                Some(f) => {
+                    let (r, c) = (0..8).flat_map(|r| (0..16).map(move |c| (r, c))).find(|(r, c)| f[*r][*c] != table[*r][*c]).unwrap_or((0, 0));
+                    rep.violation(
+                        format!("kat|{}|bundled S-box set {} differs from the published table", alias, sname),
+                        J::obj(vec![("type", J::s(alias)), ("row", J::I(r as i64)), ("column", J::I(c as i64)), ("published", J::I(f[r][c] as i64)), ("crate", J::I(table[r][c] as i64))]),
+                    );
+                }
+                None => rep.inconclusive.push(format!("no frozen table for bundled set {}", sname)),
+            }
+        }
     }
     if want("C09", "blowfish::relations") {
         use cipher::KeyInit;
